@@ -4,6 +4,7 @@ import (
 	"fmt"
 	"testing"
 
+	"github.com/pion/rtcp"
 	"pgregory.net/rapid"
 
 	"verif/conv"
@@ -31,6 +32,83 @@ var subC03 = harness.NewSub("c03-marshal-vs-reference", func(c valCase, d harnes
 
 func c03NonTrivial(p m.Packet) bool { return valueNonTrivial(p) }
 
+// c03CodePoint is one registered number the library exports under a name. A sender that builds
+// packets from these names emits the registered value only if the constant carries it; the
+// generated values above use plain numbers, so the names need their own (finite, complete) table.
+type c03CodePoint struct {
+	Name string
+	Got  uint64
+	Want uint64
+	Ref  string
+}
+
+func c03CodePoints() []c03CodePoint {
+	return []c03CodePoint{
+		{"TypeSenderReport", uint64(rtcp.TypeSenderReport), 200, "RFC 3550 6.4.1"},
+		{"TypeReceiverReport", uint64(rtcp.TypeReceiverReport), 201, "RFC 3550 6.4.2"},
+		{"TypeSourceDescription", uint64(rtcp.TypeSourceDescription), 202, "RFC 3550 6.5"},
+		{"TypeGoodbye", uint64(rtcp.TypeGoodbye), 203, "RFC 3550 6.6"},
+		{"TypeApplicationDefined", uint64(rtcp.TypeApplicationDefined), 204, "RFC 3550 6.7"},
+		{"TypeTransportSpecificFeedback", uint64(rtcp.TypeTransportSpecificFeedback), 205, "RFC 4585 6.1"},
+		{"TypePayloadSpecificFeedback", uint64(rtcp.TypePayloadSpecificFeedback), 206, "RFC 4585 6.1"},
+		{"TypeExtendedReport", uint64(rtcp.TypeExtendedReport), 207, "RFC 3611 2"},
+		{"FormatSLI", uint64(rtcp.FormatSLI), 2, "RFC 4585 6.3"},
+		{"FormatPLI", uint64(rtcp.FormatPLI), 1, "RFC 4585 6.3"},
+		{"FormatFIR", uint64(rtcp.FormatFIR), 4, "RFC 5104 4.3"},
+		{"FormatTLN", uint64(rtcp.FormatTLN), 1, "RFC 4585 6.2"},
+		{"FormatRRR", uint64(rtcp.FormatRRR), 5, "RFC 6051 3.2"},
+		{"FormatCCFB", uint64(rtcp.FormatCCFB), 11, "RFC 8888 3.1"},
+		{"FormatREMB", uint64(rtcp.FormatREMB), 15, "draft-alvestrand-rmcat-remb 2.2"},
+		{"FormatTCC", uint64(rtcp.FormatTCC), 15, "draft-holmer-rmcat-transport-wide-cc-extensions 3.1"},
+		{"SDESEnd", uint64(rtcp.SDESEnd), 0, "RFC 3550 6.5"},
+		{"SDESCNAME", uint64(rtcp.SDESCNAME), 1, "RFC 3550 6.5.1"},
+		{"SDESName", uint64(rtcp.SDESName), 2, "RFC 3550 6.5.2"},
+		{"SDESEmail", uint64(rtcp.SDESEmail), 3, "RFC 3550 6.5.3"},
+		{"SDESPhone", uint64(rtcp.SDESPhone), 4, "RFC 3550 6.5.4"},
+		{"SDESLocation", uint64(rtcp.SDESLocation), 5, "RFC 3550 6.5.5"},
+		{"SDESTool", uint64(rtcp.SDESTool), 6, "RFC 3550 6.5.6"},
+		{"SDESNote", uint64(rtcp.SDESNote), 7, "RFC 3550 6.5.7"},
+		{"SDESPrivate", uint64(rtcp.SDESPrivate), 8, "RFC 3550 6.5.8"},
+		{"LossRLEReportBlockType", uint64(rtcp.LossRLEReportBlockType), 1, "RFC 3611 4.1"},
+		{"DuplicateRLEReportBlockType", uint64(rtcp.DuplicateRLEReportBlockType), 2, "RFC 3611 4.2"},
+		{"PacketReceiptTimesReportBlockType", uint64(rtcp.PacketReceiptTimesReportBlockType), 3, "RFC 3611 4.3"},
+		{"ReceiverReferenceTimeReportBlockType", uint64(rtcp.ReceiverReferenceTimeReportBlockType), 4, "RFC 3611 4.4"},
+		{"DLRRReportBlockType", uint64(rtcp.DLRRReportBlockType), 5, "RFC 3611 4.5"},
+		{"StatisticsSummaryReportBlockType", uint64(rtcp.StatisticsSummaryReportBlockType), 6, "RFC 3611 4.6"},
+		{"VoIPMetricsReportBlockType", uint64(rtcp.VoIPMetricsReportBlockType), 7, "RFC 3611 4.7"},
+		{"ToHMissing", uint64(rtcp.ToHMissing), 0, "RFC 3611 4.6"},
+		{"ToHIPv4", uint64(rtcp.ToHIPv4), 1, "RFC 3611 4.6"},
+		{"ToHIPv6", uint64(rtcp.ToHIPv6), 2, "RFC 3611 4.6"},
+		{"TypeTCCRunLengthChunk", uint64(rtcp.TypeTCCRunLengthChunk), 0, "transport-wide-cc 3.1.3"},
+		{"TypeTCCStatusVectorChunk", uint64(rtcp.TypeTCCStatusVectorChunk), 1, "transport-wide-cc 3.1.4"},
+		{"TypeTCCPacketNotReceived", uint64(rtcp.TypeTCCPacketNotReceived), 0, "transport-wide-cc 3.1.1"},
+		{"TypeTCCPacketReceivedSmallDelta", uint64(rtcp.TypeTCCPacketReceivedSmallDelta), 1, "transport-wide-cc 3.1.1"},
+		{"TypeTCCPacketReceivedLargeDelta", uint64(rtcp.TypeTCCPacketReceivedLargeDelta), 2, "transport-wide-cc 3.1.1"},
+		{"TypeTCCPacketReceivedWithoutDelta", uint64(rtcp.TypeTCCPacketReceivedWithoutDelta), 3, "transport-wide-cc 3.1.1"},
+		{"TypeTCCSymbolSizeOneBit", uint64(rtcp.TypeTCCSymbolSizeOneBit), 0, "transport-wide-cc 3.1.4"},
+		{"TypeTCCSymbolSizeTwoBit", uint64(rtcp.TypeTCCSymbolSizeTwoBit), 1, "transport-wide-cc 3.1.4"},
+		{"TypeTCCDeltaScaleFactor", uint64(rtcp.TypeTCCDeltaScaleFactor), 250, "transport-wide-cc 3.1.5 (250 us units)"},
+		{"ECNNonECT", uint64(rtcp.ECNNonECT), 0, "RFC 3168 5 (00)"},
+		{"ECNECT1", uint64(rtcp.ECNECT1), 1, "RFC 3168 5 (01 = ECT(1))"},
+		{"ECNECT0", uint64(rtcp.ECNECT0), 2, "RFC 3168 5 (10 = ECT(0))"},
+		{"ECNCE", uint64(rtcp.ECNCE), 3, "RFC 3168 5 (11)"},
+	}
+}
+
+type c03CodePointCase struct{ Name string }
+
+var subC03CodePoints = harness.NewSub("c03-registered-code-points", func(c c03CodePointCase, _ harness.Dialect) error {
+	for _, r := range c03CodePoints() {
+		if r.Name == c.Name {
+			if r.Got != r.Want {
+				return fmt.Errorf("rtcp.%s = %d, the registered value is %d (%s)", r.Name, r.Got, r.Want, r.Ref)
+			}
+			return nil
+		}
+	}
+	return fmt.Errorf("unknown code point %q", c.Name)
+})
+
 func TestC03(t *testing.T) {
 	defer harness.Uncaught(t)
 	harness.RapidCheck(t, harness.Scale(6000, 40000), 3, func(rt *rapid.T) {
@@ -38,4 +116,13 @@ func TestC03(t *testing.T) {
 		harness.Record(subC03.Name, c, c03NonTrivial(c.P), classesOf(c.P)...)
 		subC03.Check(rt, c)
 	})
+	if harness.Cfg.Shard == 0 {
+		rows := c03CodePoints()
+		for _, r := range rows {
+			subC03CodePoints.Check(t, c03CodePointCase{Name: r.Name})
+		}
+		harness.Eval(subC03CodePoints.Name, int64(len(rows)))
+		harness.Exhaustive(subC03CodePoints.Name, fmt.Sprintf("all %d exported packet-type, format, SDES item, XR block, hop-limit kind, TWCC and ECN code points", len(rows)))
+		harness.Sample(subC03CodePoints.Name, 1, c03CodePointCase{Name: "FormatCCFB"})
+	}
 }
